@@ -116,6 +116,16 @@ func (p *pendingRune) rest() []byte {
 	return p.buf[:n]
 }
 
+// Write sends b through the escaper of the set (this is what a Renderer calls). Nothing is held back here: where
+// what a Renderer writes ends, only the Renderer knows.
+func (st *Runtime) Write(b []byte) (int, error) {
+	st.escapeeWriter.Write(b)
+	if rest := st.escapeeWriter.pending.rest(); len(rest) > 0 && st.set.escapee != nil {
+		st.set.escapee(st.Writer, rest)
+	}
+	return 0, nil
+}
+
 // Runtime this type holds the state of the execution of an template
 type Runtime struct {
 	*escapeeWriter
